@@ -72,8 +72,9 @@ does panic: `*_panics` there); none of them is a violation the property lists. -
 def PanicFree (a : Algo) (i : Input) : Prop :=
   match a with
   | .rcb | .greedy | .kk | .fm => True
-  -- float linear algebra of the oriented bounding box is outside the model
-  | .rib => i.obbOk = true
+  -- float linear algebra of the oriented bounding box is outside the model; it is only reached
+  -- with matching lengths (Rib validates them first)
+  | .rib => i.obbOk = true ∨ i.weights.length ≠ i.parts.length ∨ i.points ≠ i.parts.length
   -- `T::from_f64(sum * tolerance).unwrap()`; only reached with matching non-empty input
   | .ckk => i.tolOk = true ∨ i.weights.length ≠ i.parts.length ∨ i.weights.length = 0
   -- `part_count` saturates at `usize::MAX`: with an id of `usize::MAX` and valid lengths
